@@ -9,7 +9,8 @@ import tempfile
 
 from harness import world
 
-TEXT_FIELDS = ("body", "title")
+# "x_dyn" is a concrete name of the dynamic (glob) field "*_dyn"
+TEXT_FIELDS = ("body", "title", "x_dyn")
 
 # ---- injective value pools: id (1-based) -> concrete value --------------------------------
 POOLS = {
@@ -54,7 +55,7 @@ INDEX = dict((f, dict((okey(v), i + 1) for i, v in enumerate(vals))) for f, vals
 def make_schema(variant=0):
     from whoosh import fields, analysis, columns
     ana = analysis.RegexTokenizer(r"\S+") | analysis.StopFilter(stoplist=[world.GAPWORD], minsize=1, renumber=False)
-    return fields.Schema(
+    schema = fields.Schema(
         key=fields.ID(stored=True, unique=True),
         body=fields.TEXT(analyzer=ana, phrase=True, chars=(variant % 2 == 1), vector=True),
         title=fields.TEXT(analyzer=ana, phrase=(variant % 3 != 2), sortable=False),
@@ -72,11 +73,16 @@ def make_schema(variant=0):
         cpkl=fields.STORED,
         ccomp=fields.ID(sortable=columns.CompressedBytesColumn()),
     )
+    # a dynamic field: indexed, scorable, with vectors, not stored
+    schema.add("*_dyn", fields.TEXT(analyzer=ana, phrase=True, vector=(variant % 2 == 0)), glob=True)
+    return schema
 
 
 def rand_adoc(rng, key, rich=True):
     d = world.rand_doc(rng, gaps=True)
     d["key"] = key
+    if rng.random() < 0.6:
+        d["t"]["x_dyn"] = [world.rand_term(rng) for _ in range(rng.randrange(1, 5))]
     d["s"], d["c"] = {}, {}
     if rich:
         for f in STORED_FIELDS:
@@ -132,6 +138,49 @@ class CWorld(object):
             self.dir = tempfile.mkdtemp(prefix="verif-cw-")
             self.st = FileStorage(self.dir, supports_mmap=cfg.get("mmap", True))
         self.ix = self.st.create_index(self.schema)
+        self.groups = []         # key lists that were added inside writer.group() (outer and nested)
+
+    def _add_all(self, w, keys, adocs):
+        """Adds the documents; with cfg['groups'] the first documents of the step form a group with a
+        nested group inside it (hierarchical documents)."""
+        keys = list(keys)
+        if self.cfg.get("groups") == "many" and hasattr(w, "start_group"):
+            # plain, plain, group(k, group(k, k), k), plain, plain, group(...), ...
+            while keys:
+                for k in keys[:2]:
+                    w.add_document(**concrete_kwargs(adocs[k]))
+                g, keys = keys[2:6], keys[6:]
+                if len(g) >= 3:
+                    w.start_group()
+                    w.add_document(**concrete_kwargs(adocs[g[0]]))
+                    w.start_group()
+                    for k in g[1:3]:
+                        w.add_document(**concrete_kwargs(adocs[k]))
+                    w.end_group()
+                    for k in g[3:]:
+                        w.add_document(**concrete_kwargs(adocs[k]))
+                    w.end_group()
+                    self.groups.append(list(g))
+                    self.groups.append(list(g[1:3]))
+                else:
+                    for k in g:
+                        w.add_document(**concrete_kwargs(adocs[k]))
+            return
+        if self.cfg.get("groups") and len(keys) >= 3 and hasattr(w, "start_group"):
+            head, keys = keys[:5], keys[5:]
+            w.start_group()
+            w.add_document(**concrete_kwargs(adocs[head[0]]))
+            w.start_group()
+            for k in head[1:3]:
+                w.add_document(**concrete_kwargs(adocs[k]))
+            w.end_group()
+            for k in head[3:]:
+                w.add_document(**concrete_kwargs(adocs[k]))
+            w.end_group()
+            self.groups.append(list(head))
+            self.groups.append(list(head[1:3]))
+        for k in keys:
+            w.add_document(**concrete_kwargs(adocs[k]))
 
     def _codec(self):
         if self.cfg.get("blocklimit"):
@@ -190,8 +239,7 @@ class CWorld(object):
             else:
                 w = self.ix.writer(**kw)
             if step[0] == "commit":
-                for k in step[1]:
-                    w.add_document(**concrete_kwargs(adocs[k]))
+                self._add_all(w, step[1], adocs)
                 w.commit(merge=opts.get("merge", True), optimize=opts.get("optimize", False))
             else:
                 for k in step[1]:
@@ -249,11 +297,15 @@ def plan_ops(plan):
     return ops
 
 
-def dump(reader, idx, schema, rng=None, maxterms=40, columns=True, vectors=True, terminfo=True, plan=None):
+def dump(reader, idx, schema, rng=None, maxterms=40, columns=True, vectors=True, terminfo=True, plan=None,
+         groups=None):
     """The canonical logical dump of `reader` as ContentCheck observations."""
     obs = []
     if plan is not None:
         obs.append({"kind": "livekeys", "keys": [sf["key"] for sf in reader.all_stored_fields()], "ops": plan_ops(plan)})
+    if groups:
+        obs.append({"kind": "grouporder", "path": "documents of a writer.group() stay adjacent",
+                    "order": [sf["key"] for sf in reader.all_stored_fields()], "groups": groups})
 
     def guard(path, fn):
         try:
